@@ -1,6 +1,10 @@
 import WtfModel.Props.C10
+import WtfModel.Props.C07
 #print axioms Wtf.C10.fuzzy_target_nul_free
 #print axioms Wtf.C10.buffer_cap_safe
 #print axioms Wtf.C10.buffer_cap_exact
 #print axioms Wtf.C10.nul_panics_matcher
 #print axioms Wtf.C10.search_panic_only_from_matcher
+-- the unconditional panic-freedom of the search model (proved with the matcher analysis of C07)
+#print axioms Wtf.C07.no_panic
+#print axioms Wtf.C07.accepts_iff_subseq
